@@ -116,3 +116,188 @@ Fixpoint insert_bundle (x : Bundle) (l : list Bundle) : list Bundle :=
   end.
 (* stable sort of the document-order list: insert from the right *)
 Definition sort_bundles (l : list Bundle) : list Bundle := fold_right insert_bundle [] l.
+
+(* ---------------- header / key / algorithm rules (C06) ---------------- *)
+
+(* verify_header.check_domain *)
+Definition check_domain (p : ReqPolicy) (r : Request) : res unit :=
+  guard KSR_DOMAIN_Violation (negb (existsb (text_eqb (rq_domain r)) (p_acceptable_domains p))).
+
+(* verify_bundles.check_unique_ids: the `seen` dict *)
+Fixpoint unique_ids_loop (seen : list text) (bs : list Bundle) : res unit :=
+  match bs with
+  | [] => OK tt
+  | b :: t => if existsb (text_eqb (b_id b)) seen then Raise KSR_BUNDLE_UNIQUE_Violation
+              else unique_ids_loop (b_id b :: seen) t
+  end.
+Definition check_unique_ids (r : Request) : res unit := unique_ids_loop [] (rq_bundles r).
+
+(* verify_bundles._find_matching_zsk_policy_*_alg *)
+Definition rsa_match (algs : list AlgPolicy) (k : Key) (r : RsaPub) (ignore_e : bool) : bool :=
+  existsb (fun a => match a with
+                    | APRsa al bits e => (k_alg k =? al) && (rsa_bits r =? bits) && ((rsa_e r =? e) || ignore_e)
+                    | _ => false
+                    end) algs.
+
+Fixpoint ecdsa_match (algs : list AlgPolicy) (k : Key) : res bool :=
+  match algs with
+  | [] => OK false
+  | APEcdsa al bits :: t =>
+      bind (ecdsa_without_prefix (k_pub k) al) (fun pk =>
+      if (k_alg k =? al) && (ecdsa_pubkey_size pk =? bits) then OK true else ecdsa_match t k)
+  | _ :: t => ecdsa_match t k
+  end.
+
+Definition eddsa_expected_size (alg : Z) : res Z :=
+  if alg =? ED25519 then OK 256 else if alg =? ED448 then OK 456 else Raise ValueError.
+Definition eddsa_without_prefix (pub : list Z) (alg : Z) : res (list Z) :=
+  bind (eddsa_expected_size alg) (fun ex =>
+  if len pub * 8 =? ex then OK pub
+  else match pub with 4 :: rest => OK rest | [] => Raise IndexError | _ => OK pub end).
+Fixpoint eddsa_match (algs : list AlgPolicy) (k : Key) : res bool :=
+  match algs with
+  | [] => OK false
+  | APEddsa al bits :: t =>
+      bind (eddsa_without_prefix (k_pub k) al) (fun pk =>
+      if (k_alg k =? al) && (len pk * 8 =? bits) then OK true else eddsa_match t k)
+  | _ :: t => eddsa_match t k
+  end.
+
+(* the checks applied to a key identifier seen for the first time *)
+Definition check_new_key (p : ReqPolicy) (algs : list AlgPolicy) (k : Key) : res unit :=
+  (if is_rsa (k_alg k) then
+     bind (rsa_decode (k_pub k)) (fun r =>
+       let m := rsa_match algs k r false in
+       let m' := if negb m && negb (p_rsa_exponent_match_zsk_policy p) then rsa_match algs k r true else m in
+       guard KSR_BUNDLE_KEYS_Violation (negb m'))
+   else if is_ecdsa (k_alg k) then bind (ecdsa_match algs k) (fun m => guard KSR_BUNDLE_KEYS_Violation (negb m))
+   else if is_eddsa (k_alg k) then bind (eddsa_match algs k) (fun m => guard KSR_BUNDLE_KEYS_Violation (negb m))
+   else Raise ValueError) >>>
+  guard KSR_BUNDLE_KEYS_Violation (negb (k_flags k =? FLAG_ZONE)) >>>
+  bind (calculate_key_tag k) (fun t => guard KSR_BUNDLE_KEYS_Violation (negb (t =? k_tag k))).
+
+(* verify_bundles.check_keys_match_zsk_policy: `seen` maps identifier -> first key with it *)
+Fixpoint keys_loop (p : ReqPolicy) (algs : list AlgPolicy) (seen : list Key) (ks : list Key) : res unit :=
+  match ks with
+  | [] => OK tt
+  | k :: t =>
+      match find_key_by_id (k_id k) seen with
+      | Some s => if key_eqb k s then keys_loop p algs seen t else Raise KSR_BUNDLE_KEYS_Violation
+      | None => check_new_key p algs k >>> keys_loop p algs (k :: seen) t
+      end
+  end.
+Definition all_keys (r : Request) : list Key := flat_map b_keys (rq_bundles r).
+Definition check_keys_match_zsk_policy (p : ReqPolicy) (r : Request) : res unit :=
+  if negb (p_keys_match_zsk_policy p) then OK tt else keys_loop p (sp_algs (rq_zsk r)) [] (all_keys r).
+
+(* verify_policy.check_keys_in_bundles *)
+Fixpoint count_keys_loop (bs : list Bundle) (ns : list Z) : res unit :=
+  match bs, ns with
+  | b :: bt, n :: nt => guard KSR_POLICY_KEYS_Violation (negb (Z.of_nat (length (b_keys b)) =? n)) >>> count_keys_loop bt nt
+  | _, _ => OK tt
+  end.
+Fixpoint distinct_ids (seen : list text) (ks : list Key) : list text :=
+  match ks with
+  | [] => seen
+  | k :: t => if existsb (text_eqb (k_id k)) seen then distinct_ids seen t else distinct_ids (k_id k :: seen) t
+  end.
+Definition check_keys_in_bundles (p : ReqPolicy) (r : Request) : res unit :=
+  if negb (p_check_keys_match_ksk p) then OK tt else
+  guard KSR_POLICY_KEYS_Violation (negb (Z.of_nat (length (rq_bundles r)) =? Z.of_nat (length (p_num_keys_per_bundle p)))) >>>
+  count_keys_loop (rq_bundles r) (p_num_keys_per_bundle p) >>>
+  guard KSR_POLICY_KEYS_Violation (negb (Z.of_nat (length (distinct_ids [] (all_keys r))) =? p_num_different_keys p)).
+
+(* verify_policy.check_zsk_policy_algorithm *)
+Definition alg_base_step (p : ReqPolicy) (a : AlgPolicy) : res unit :=
+  guard KSR_POLICY_ALG_Violation (mem (ap_alg a) deprecated_algorithms) >>>
+  guard KSR_POLICY_ALG_Violation (negb (mem (ap_alg a) supported_algorithms)) >>>
+  guard KSR_POLICY_ALG_Violation (is_ecdsa (ap_alg a) && negb (p_enable_ecdsa p)) >>>
+  guard KSR_POLICY_ALG_Violation (is_eddsa (ap_alg a) && negb (p_enable_eddsa p)).
+Definition alg_rsa_step (p : ReqPolicy) (a : AlgPolicy) : res unit :=
+  if is_rsa (ap_alg a) then
+    match a with
+    | APRsa _ bits e =>
+        guard KSR_POLICY_ALG_Violation (negb (mem bits (p_rsa_sizes p))) >>>
+        guard KSR_POLICY_ALG_Violation (negb (mem e (p_rsa_exponents p)))
+    | _ => Raise AssertionError
+    end
+  else OK tt.
+Definition check_zsk_policy_algorithm (p : ReqPolicy) (r : Request) : res unit :=
+  let algs := sp_algs (rq_zsk r) in
+  for_each (alg_base_step p) algs >>>
+  if negb (p_sig_algs_match p) then OK tt else
+  for_each (fun a => guard KSR_POLICY_ALG_Violation (negb (mem (ap_alg a) (p_approved_algorithms p)))) algs >>>
+  for_each (alg_rsa_step p) algs.
+
+Definition keys_header_checks (p : ReqPolicy) (r : Request) : res unit :=
+  check_domain p r >>> check_unique_ids r >>> check_keys_match_zsk_policy p r >>>
+  check_keys_in_bundles p r >>> check_zsk_policy_algorithm p r.
+
+(* ---------------- proof of possession (C07) ---------------- *)
+Section PoP.
+  (* verdict of the crypto library on (key, signature value) for the message the model built *)
+  Variable verify : Key -> Sig -> list Z -> bool.
+
+  Fixpoint dup_key_ids (seen : list text) (ks : list Key) : bool :=
+    match ks with
+    | [] => false
+    | k :: t => existsb (text_eqb (k_id k)) seen || dup_key_ids (k_id k :: seen) t
+    end.
+
+  (* KSKM_PublicKey.from_key: only decodability matters here *)
+  Definition pubkey_decodable (k : Key) : res unit :=
+    if is_rsa (k_alg k) then bind (rsa_decode (k_pub k)) (fun _ => OK tt)
+    else if is_ecdsa (k_alg k) then OK tt
+    else if is_eddsa (k_alg k) then OK tt
+    else Raise RuntimeError.
+
+  Definition verify_step (keys : list Key) (s : Sig) : res unit :=
+    match find_key_by_id (s_id s) keys with
+    | None => Raise ValueError
+    | Some key =>
+        pubkey_decodable key >>>
+        bind (make_raw_rrsig s keys) (fun tbs =>
+        if verify key s tbs then OK tt else Raise InvalidSignature)
+    end.
+
+  (* common.signature.validate_signatures *)
+  Definition validate_signatures (b : Bundle) : res unit :=
+    match b_keys b, b_sigs b with
+    | [], _ => Raise ValueError
+    | _, [] => Raise ValueError
+    | _, _ =>
+        if dup_key_ids [] (b_keys b) then Raise ValueError
+        else for_each (verify_step (b_keys b)) (b_sigs b)
+    end.
+
+  Definition pop_bundle (b : Bundle) : res unit :=
+    match validate_signatures b with
+    | Raise c => if c =? InvalidSignature then Raise KSR_BUNDLE_POP_Violation else Raise c
+    | OK _ =>
+        for_each (fun k => guard KSR_BUNDLE_POP_Violation
+                             (negb (existsb (fun s => text_eqb (s_id s) (k_id k)) (b_sigs b)))) (b_keys b)
+    end.
+
+  (* verify_bundles.check_proof_of_possession *)
+  Definition check_proof_of_possession (p : ReqPolicy) (r : Request) : res unit :=
+    if negb (p_validate_signatures p) then OK tt else for_each pop_bundle (rq_bundles r).
+
+  (* ksr.validate.validate_request: all checks in the code's order *)
+  Definition validate_request (now : Z) (p : ReqPolicy) (r : Request) : res unit :=
+    check_domain p r >>> check_unique_ids r >>> check_keys_match_zsk_policy p r >>>
+    check_proof_of_possession p r >>> check_bundle_count p r >>> check_cycle_durations p r >>>
+    check_keys_in_bundles p r >>> check_zsk_policy_algorithm p r >>>
+    check_bundle_overlaps p r >>> check_signature_validity p r >>>
+    check_signature_horizon now p r >>> check_bundle_intervals p r.
+
+  (* skr.validate.check_valid_signatures / validate_response *)
+  Definition check_valid_signatures (validate : bool) (b : Bundle) : res unit :=
+    if negb validate then OK tt else
+    match validate_signatures b with
+    | Raise c => if c =? InvalidSignature then Raise InvalidSignatureViolation else Raise c
+    | OK _ => OK tt
+    end.
+  Definition validate_response (num_bundles : Z) (validate : bool) (r : Response) : res unit :=
+    guard PolicyViolation (negb (Z.of_nat (length (rs_bundles r)) =? num_bundles)) >>>
+    for_each (check_valid_signatures validate) (rs_bundles r).
+End PoP.
